@@ -193,6 +193,7 @@ def projectOracles (p : Project) (cfg : Gn.Config) (a : Analysis) (implFiles : J
     (if commaUnsafe then ["K05_commaUnsafe"] else []) ++
     (if precUnsafe then ["K05a_precUnsafe"] else []) ++
     (if prefixUnsafe then ["K02a_prefixUnsafe"] else []) ++
+    (if serdeByToken.any (fun n => !(L.isCustomName n)) then ["K07e_lowercaseTypeName"] else []) ++
     (if res1Named then ["K07d_resultAlias"] else []) ++
     (if !sameSet serdeByToken (serdeBySubstring.filter fun n => !tupleOrOddShapes || true) then ["K07c_deriveSubstring"] else []) ++
     (if tupleOrOddShapes then ["undocumentedItemShape"] else []) ++
